@@ -58,9 +58,11 @@ class Ballot:
             ):
                 raise TypeError("Score values must be numeric.")
 
-            return {
-                c: Fraction(s).limit_denominator() for c, s in scores.items() if s != 0
+            converted = {
+                c: Fraction(s).limit_denominator() for c, s in scores.items()
             }
+            # drop zeros after the conversion: a tiny score can round to zero
+            return {c: s for c, s in converted.items() if s != 0}
         else:
             return None
 
